@@ -203,15 +203,24 @@ spec('MAGMA2Scheme', cls='pysph.sph.gas_dynamics.magma2.MAGMA2Scheme',
                         or (o['adaptive_h_scheme'] == 'mpm' and o['hfact'] is None)),
      fixed={'reconstruction_order_choices': 'constant set of legal values',
             'h_scheme_choices': 'constant set of legal values',
-            'formulation_choices': 'constant set of legal values'})
+            'formulation_choices': 'constant set of legal values',
+            'solver:kernel': 'configure_solver only copies the number kernel.fkern '
+            'into the scheme (1.0 without); no equation, property or stepper '
+            'depends on which'})
 
 spec('TSPHScheme', cls='pysph.sph.gas_dynamics.tsph.TSPHScheme',
      ctor=lambda f, s, d: dict(fluids=f, solids=s, dim=d, gamma=1.4, hfact=1.2),
-     axes=OrderedDict([('has_ghosts', _bools())]))
+     axes=OrderedDict([('has_ghosts', _bools())]),
+     fixed={'solver:kernel': 'configure_solver only copies the number kernel.fkern '
+            'into the scheme (1.0 without); no equation, property or stepper '
+            'depends on which'})
 
 spec('PSPHScheme', cls='pysph.sph.gas_dynamics.psph.PSPHScheme',
      ctor=lambda f, s, d: dict(fluids=f, solids=s, dim=d, gamma=1.4, hfact=1.2),
-     axes=OrderedDict([('has_ghosts', _bools())]))
+     axes=OrderedDict([('has_ghosts', _bools())]),
+     fixed={'solver:kernel': 'configure_solver only copies the number kernel.fkern '
+            'into the scheme (1.0 without); no equation, property or stepper '
+            'depends on which'})
 
 # the chooser only delegates; it is run over the default options of the
 # schemes it is given, for every choice
@@ -349,6 +358,88 @@ def option_like_parameters(cls):
     return out
 
 
+def _is_none_test(t):
+    """`<name> is None` / `<name> is not None` (choosing a default)"""
+    return (isinstance(t, ast.Compare) and len(t.ops) == 1 and
+            isinstance(t.ops[0], (ast.Is, ast.IsNot)) and
+            isinstance(t.left, ast.Name) and
+            isinstance(t.comparators[0], ast.Constant) and
+            t.comparators[0].value is None)
+
+
+def solver_argument_branches(cls):
+    """the parameters of configure_solver (kernel, integrator_cls,
+    extra_steppers, ...) on whose VALUE the method branches: a branch test
+    mentions the parameter, or a local computed from it, other than in the
+    default tests `<x> is None` / `<x> is not None`.  Such a parameter is an
+    option of the scheme in the sense of the property: its values must be a
+    `solver` axis of the grid (or be listed as fixed, with the reason)."""
+    fn = _class_methods_src(cls).get('configure_solver')
+    if fn is None:
+        return set()
+    params = set(a.arg for a in fn.args.args + fn.args.kwonlyargs) - {'self'}
+    taint = {p: {p} for p in params}
+
+    def sources(expr):
+        out = set()
+        for m in ast.walk(expr):
+            if isinstance(m, ast.Name) and m.id in taint:
+                out |= taint[m.id]
+        return out
+    changed = True
+    while changed:
+        changed = False
+        for n in ast.walk(fn):
+            if isinstance(n, ast.Assign):
+                tgts, val = list(n.targets), n.value
+            elif isinstance(n, (ast.AugAssign, ast.AnnAssign)) and \
+                    n.value is not None:
+                tgts, val = [n.target], n.value
+            elif isinstance(n, (ast.For, ast.comprehension)):
+                tgts, val = [n.target], n.iter
+            else:
+                continue
+            src = sources(val)
+            if not src:
+                continue
+            names = []
+            while tgts:
+                t = tgts.pop()
+                if isinstance(t, ast.Name):
+                    names.append(t.id)
+                elif isinstance(t, (ast.Tuple, ast.List)):
+                    tgts = tgts + list(t.elts)
+                elif isinstance(t, ast.Starred):
+                    tgts = tgts + [t.value]
+                # self.<attr> = ..., d[k] = ...: not a local
+            for m in names:
+                if not src <= taint.get(m, set()):
+                    taint.setdefault(m, set()).update(src)
+                    changed = True
+    tests = []
+    for n in ast.walk(fn):
+        if isinstance(n, (ast.If, ast.IfExp, ast.While, ast.Assert)):
+            tests.append(n.test)
+        elif isinstance(n, ast.comprehension):
+            tests += n.ifs
+    out = set()
+    for t in tests:
+        parts = t.values if isinstance(t, ast.BoolOp) else [t]
+        for q in parts:
+            if isinstance(q, ast.UnaryOp) and isinstance(q.op, ast.Not):
+                q = q.operand
+            if _is_none_test(q):
+                continue
+            if isinstance(q, ast.Compare) and len(q.ops) == 1 and \
+                    isinstance(q.ops[0], (ast.In, ast.NotIn)):
+                # `name not in steppers`: whether the caller's dict mentions
+                # an array is how extra_steppers is documented to work (the
+                # harness exercises it: None / {} / user steppers)
+                continue
+            out |= sources(q)
+    return out
+
+
 def audit_grid():
     """fail loudly when the declared grids do not cover the source"""
     found = discover_scheme_classes()
@@ -380,7 +471,14 @@ def audit_grid():
         for a in sorted(op - known):
             problems.append('%s has the bool/enumerated option %s which is '
                             'not a grid axis' % (name, a))
-        info[name] = {'branch_attrs': sorted(br), 'option_like': sorted(op)}
+        sb = solver_argument_branches(cls)
+        for a in sorted(sb):
+            if a not in sp['solver'] and 'solver:' + a not in sp['fixed']:
+                problems.append('%s.configure_solver branches on the value of '
+                                'its argument %s, which is not a solver axis '
+                                'of the grid' % (name, a))
+        info[name] = {'branch_attrs': sorted(br), 'option_like': sorted(op),
+                      'solver_branches': sorted(sb)}
     for name in SPECS:
         if name not in found:
             problems.append('SPEC %s: no such class in the tree' % name)
@@ -553,6 +651,45 @@ def build_scheme(name, opts, dim, solids):
     if conf:
         s.configure(**conf)
     return s, fluids, sol, extra
+
+
+def apply_options(scheme, name, opts):
+    """change the options of an EXISTING scheme object to `opts` the way an
+    application does after construction: Scheme.configure(**options)
+    (SchemeChooser: choosing another scheme, what consume_user_options
+    does).  -> the option names that cannot be changed this way (constructor
+    arguments that are not attributes)"""
+    if name == 'SchemeChooser':
+        scheme.scheme = scheme.schemes[opts['scheme']]
+        return []
+    conf = {k: v for k, v in opts.items() if hasattr(scheme, k)}
+    if name == 'EDACScheme' and conf.get('inviscid_solids', 0) is None:
+        # the ATTRIBUTE is a list (the constructor turns its default None
+        # into []); configure() is a plain setattr
+        conf['inviscid_solids'] = []
+    if conf:
+        scheme.configure(**conf)
+    return sorted(set(opts) - set(conf))
+
+
+def solver_kwargs(solver):
+    skw = {}
+    if solver.get('integrator_cls') is not None:
+        skw['integrator_cls'] = _resolve(solver['integrator_cls'])
+    return skw
+
+
+class no_compile_evaluator(object):
+    """context: SPHEvaluator replaced by _NoCompileEvaluator (see there)"""
+    def __enter__(self):
+        import pysph.tools.sph_evaluator as SE
+        self.orig = SE.SPHEvaluator
+        SE.SPHEvaluator = _NoCompileEvaluator
+
+    def __exit__(self, *exc):
+        import pysph.tools.sph_evaluator as SE
+        SE.SPHEvaluator = self.orig
+        return False
 
 
 def run_scheme(name, digits, patch_evaluator=True):
@@ -818,14 +955,92 @@ def describe_stepper(array, st):
     meths = OrderedDict()
     implicit = []
     idx = set()
+    py_stages = []
     for x in dir(st):
         if x.startswith('py_stage'):
             implicit += implicit_reads(type(st), x)
+            py_stages.append(x[3:])
         elif x.startswith('stage') or x == 'initialize':
             meths[x] = [a for a in _args_of(getattr(st, x)) if a != 'self']
             idx.update(a[2:] for a in index_uses(type(st), x))
     return {'array': array, 'cls': type(st).__name__, 'methods': meths,
-            'implicit': sorted(set(implicit)), 'index': sorted(idx)}
+            'implicit': sorted(set(implicit)), 'index': sorted(idx),
+            'py_stages': sorted(py_stages)}
+
+
+# --------------------------------------------------------------------------
+# the integrator: which members of the generated `Integrator` class its
+# one_timestep uses
+
+_TEMPLATE_MEMBERS = None
+_INTEG_CACHE = {}
+
+
+def template_members():
+    """what the generated cdef class Integrator always has, read from
+    pysph/sph/integrator_cython.mako: its literal methods and cdef attributes
+    (the wrappers `cdef ${method}(self)` come from the steppers)"""
+    global _TEMPLATE_MEMBERS
+    if _TEMPLATE_MEMBERS is None:
+        import re
+        import pysph.sph
+        path = os.path.join(os.path.dirname(pysph.sph.__file__),
+                            'integrator_cython.mako')
+        text = open(path).read()
+        k = text.find('cdef class Integrator')
+        if k < 0:
+            raise TranslatorError('integrator_cython.mako: no cdef class '
+                                  'Integrator')
+        text = text[k:]
+        meths = set(re.findall(r'^    c?p?def (\w+)\(', text, re.M))
+        attrs = set()
+        for decl in re.findall(r'^    cdef (?:public )?\w+ ([\w, ]+)$', text,
+                               re.M):
+            attrs.update(x.strip() for x in decl.split(','))
+        if 'one_timestep' not in meths or 'do_post_stage' not in meths:
+            raise TranslatorError('integrator_cython.mako: unexpected layout '
+                                  '(methods found: %s)' % sorted(meths))
+        _TEMPLATE_MEMBERS = meths | attrs
+    return _TEMPLATE_MEMBERS
+
+
+def integrator_calls(cls):
+    """names of the `self.<name>` members that `cls.one_timestep` uses and
+    that the template of the generated Integrator class does not define by
+    itself: each must be a stepper-method wrapper (`initialize`, `stage<n>`),
+    generated only when some stepper has that method
+    (IntegratorCythonHelper.get_stepper_method_wrapper_names) -- the body of
+    one_timestep is pasted into the generated cdef class as it is
+    (get_timestep_code)."""
+    if cls not in _INTEG_CACHE:
+        fn = ast.parse(textwrap.dedent(
+            inspect.getsource(cls.one_timestep))).body[0]
+        if not isinstance(fn, ast.FunctionDef) or not fn.args.args:
+            raise TranslatorError('%s.one_timestep: not a method'
+                                  % cls.__name__)
+        me = fn.args.args[0].arg
+        used = set()
+        for n in ast.walk(fn):
+            if isinstance(n, ast.Attribute) and \
+                    isinstance(n.value, ast.Name) and n.value.id == me:
+                used.add(n.attr)
+            elif isinstance(n, ast.Name) and n.id == me and \
+                    not isinstance(n.ctx, ast.Load):
+                raise TranslatorError('%s.one_timestep rebinds %s'
+                                      % (cls.__name__, me))
+        for n in ast.walk(fn):
+            if isinstance(n, ast.Call) and isinstance(n.func, ast.Name) and \
+                    n.func.id in ('getattr', 'setattr') and n.args and \
+                    isinstance(n.args[0], ast.Name) and n.args[0].id == me:
+                raise TranslatorError('%s.one_timestep uses a computed member '
+                                      'of the integrator' % cls.__name__)
+        _INTEG_CACHE[cls] = sorted(used - template_members())
+    return _INTEG_CACHE[cls]
+
+
+def describe_integrator(integ):
+    return {'cls': type(integ).__name__,
+            'calls': integrator_calls(type(integ))}
 
 
 def extract(name, digits):
@@ -843,7 +1058,7 @@ def extract(name, digits):
         'nstages': len(stages),
     }
     integ = scheme.get_solver().integrator
-    rec['integrator'] = type(integ).__name__
+    rec['integrator'] = describe_integrator(integ)
     rec['steppers'] = [describe_stepper(k, st)
                        for k, st in integ.steppers.items()]
     rec['kernel'] = type(scheme.get_solver().kernel).__name__
@@ -979,6 +1194,7 @@ def build_tables(allrecs, pre):
 
     eqkinds = Interner()
     stepkinds = Interner()
+    integkinds = Interner()
     arrnames = Interner()
     bodies = Interner()
     per_scheme = OrderedDict()
@@ -1001,7 +1217,7 @@ def build_tables(allrecs, pre):
                      if is_arr(x, 'd_') or is_arr(x, 's_')))
             for m, args in st['methods'].items())
         return stepkinds((st['cls'], meths, mask(st['implicit']),
-                          mask(st['index'])))
+                          mask(st['index']), tuple(st['py_stages'])))
 
     def types_of(a):
         ty = a['types']
@@ -1033,13 +1249,16 @@ def build_tables(allrecs, pre):
             sts = tuple((stepkind(st), aidx.get(st['array'], NOARR))
                         for st in r['steppers'])
             types = tuple(types_of(a) for a in r['arrays'])
-            ids.append(bodies((arrays, eqs, sts, types)))
+            integ = integkinds((r['integrator']['cls'],
+                                tuple(r['integrator']['calls'])))
+            ids.append(bodies((arrays, eqs, sts, types, integ)))
         per_scheme[sname] = ids
     return {
         'props': props.items(), 'presyms': presym.items(), 'pre': pre,
         'pre_masks': [(s, pmask(pre[s]['deps']), mask(pre[s]['d']),
                        mask(pre[s]['s'])) for s in presym.items()],
         'eqkinds': eqkinds.items(), 'stepkinds': stepkinds.items(),
+        'integkinds': integkinds.items(),
         'arrnames': arrnames.items(), 'bodies': bodies.items(),
         'per_scheme': per_scheme, 'errors': errors,
     }
@@ -1068,7 +1287,9 @@ def emit_lean(T):
     w('component of a body gives, per array, the names of C type int / unsigned')
     w('int / long / float / double and the strides other than 1; the last')
     w('components of an equation / stepper kind the array arguments an element')
-    w('of which is used as an index.')
+    w('of which is used as an index.  A stepper kind also lists the stages')
+    w('it has a Python-level `py_stage<n>` for; the last component of a body is')
+    w('the integrator kind.')
     w('-/')
     w('import PysphVerif.Model.SchemeNeeds')
     w('namespace PysphVerif.Gen.Schemes')
@@ -1096,15 +1317,23 @@ def emit_lean(T):
     w('')
     w('def stepKinds : List StepKind := [')
     rows = []
-    for cls, meths, imp, ix in T['stepkinds']:
+    for cls, meths, imp, ix, pys in T['stepkinds']:
         ms = _llist('(%s, %d)' % (_lstr(m), k) for m, k in meths)
-        rows.append('  ⟨%s, %s, %d, %d⟩' % (_lstr(cls), ms, imp, ix))
+        rows.append('  ⟨%s, %s, %d, %d, %s⟩' % (
+            _lstr(cls), ms, imp, ix, _llist(_lstr(x) for x in pys)))
     w(',\n'.join(rows))
+    w(']')
+    w('')
+    w('/-- integrator classes: the members of the generated Integrator class')
+    w('that `one_timestep` uses and the template does not define itself -/')
+    w('def integKinds : List IntegKind := [')
+    w(',\n'.join('  ⟨%s, %s⟩' % (_lstr(cls), _llist(_lstr(x) for x in calls))
+                 for cls, calls in T['integkinds']))
     w(']')
     w('')
     w('def bodies : List Body := [')
     rows = []
-    for arrays, eqs, sts, types in T['bodies']:
+    for arrays, eqs, sts, types, integ in T['bodies']:
         a = _llist('(%d, %d)' % x for x in arrays)
         ty = _llist('⟨%d, %d, %d, %d, %d, %s⟩' % (
             t[0], t[1], t[2], t[3], t[4],
@@ -1113,7 +1342,8 @@ def emit_lean(T):
             k, d, 'none' if s is None else 'some ' + _llist(str(x) for x in s))
             for k, d, s in eqs)
         s = _llist('(%d, %d)' % x for x in sts)
-        rows.append('  ⟨%s,\n   %s,\n   %s,\n   %s⟩' % (a, e, s, ty))
+        rows.append('  ⟨%s,\n   %s,\n   %s,\n   %s,\n   %d⟩' % (a, e, s, ty,
+                                                                  integ))
     w(',\n'.join(rows))
     w(']')
     w('')
@@ -1190,9 +1420,10 @@ def main():
     nconf = sum(len(v) for v in allrecs.values())
     print('schemes2tables: %d schemes, %d configurations, %d distinct bodies, '
           '%d equation kinds, %d stepper kinds, %d names, %d configurations '
-          'raised; %s; %.1fs'
+          'raised; %d integrator kinds; %s; %.1fs'
           % (len(allrecs), nconf, len(T['bodies']), len(T['eqkinds']),
              len(T['stepkinds']), len(T['props']), len(T['errors']),
+             len(T['integkinds']),
              'rewritten' if changed else 'unchanged', time.time() - t0))
     und = [x for x in T['errors'] if not x[3]]
     print('  %d configurations rejected by the scheme as declared in SPECS, '
@@ -1203,7 +1434,8 @@ def main():
             s, i, dict(describe(s, config_of_index(s, i))),
             e.strip().split('\n')[0]))
     for s, d in info.items():
-        print('  grid audit %s: branches on %s' % (s, d['branch_attrs']))
+        print('  grid audit %s: branches on %s; configure_solver on the value '
+              'of %s' % (s, d['branch_attrs'], d['solver_branches']))
 
 
 if __name__ == '__main__':
